@@ -3,6 +3,7 @@ import Driver.Dominance
 import Driver.Archive
 import Driver.Catchment
 import Driver.Suppa
+import Driver.Config
 import Driver.Derive
 import Driver.EngineSummary
 import Driver.Runs
@@ -33,6 +34,7 @@ def main (args : List String) : IO UInt32 := do
   | ["multi-run"] => Driver.run () Driver.Runs.step; return 0
   | ["engine-summaries"] => Driver.run ({} : Driver.EngineSummary.St) Driver.EngineSummary.step; return 0
   | ["derive"] => Driver.run ({} : Driver.Derive.St) Driver.Derive.step; return 0
+  | ["config-runs"] => Driver.run ({} : Driver.Config.St) Driver.Config.step; return 0
   | ["suppa"] => Driver.run ({} : Driver.Suppa.St) Driver.Suppa.step; return 0
   | ["catchment"] => Driver.run ({} : Driver.Catchment.St) Driver.Catchment.step; return 0
   | _ =>
